@@ -1,11 +1,17 @@
 //! Harness binary `h_noise <PROP> --seed S --tier T [--count N] [--replay F]`.
 //! One module per property (`cNN.rs`, `pub fn run(args: &hcore::Args, out: &mut hcore::Out)`).
 
+mod c17;
+
 fn main() {
     let args = hcore::Args::parse();
     hcore::quiet_panics();
+    if std::env::var_os("H_NOISE_PANICS").is_some() {
+        std::panic::set_hook(Box::new(|i| eprintln!("{i}")));
+    }
     let mut out = hcore::Out::new();
     match args.prop.as_str() {
+        "C17" => c17::run(&args, &mut out),
         p => {
             let _ = &mut out;
             eprintln!("h_noise: unknown property {p}");
